@@ -1609,6 +1609,30 @@ impl World {
                 }
             }
         }
+        // the slots whose (recurring) synchronisation with the parent is
+        // somewhere in the queue: due, scheduled for later, or running
+        let mut qsync: BTreeSet<String> = BTreeSet::new();
+        {
+            let pt = self.project_tasks();
+            let names = ["due", "later", "running"].iter().flat_map(|k| {
+                pt[*k].as_array().cloned().unwrap_or_default()
+            }).filter_map(|v| v.as_str().map(|s| s.to_string()));
+            for t in names {
+                // (a key under running/ carries its timestamp)
+                let t = match t.split_once('-') {
+                    Some((ts, rest))
+                        if ts.chars().all(|c| c.is_ascii_digit()) => {
+                        rest.to_string()
+                    }
+                    _ => t,
+                };
+                if let Some(rest) = t.strip_prefix("sync_")
+                    && let Some((ca, p)) = rest.split_once("_with_parent_")
+                {
+                    qsync.insert(self.slot_for(ca, p));
+                }
+            }
+        }
         // which keys of a child that is not hosted here its parent's record
         // of it lists as in use
         let mut inuse = Map::new();
@@ -1822,6 +1846,7 @@ impl World {
             "keys": self.last_keys.clone(),
             "now": chrono::Utc::now().timestamp(),
             "other_tasks": other_tasks, "odd": odd,
+            "qsync": qsync,
         })
     }
 
